@@ -52,6 +52,7 @@ type FnRun struct {
 	Unsupported []string
 	addrTable   map[string]*Loc
 	closures    map[string]*closureInfo
+	boxHolds    map[string][]Val // values stored into own (unescaped) variable cells: they escape when the cell does
 	funcRefs    map[string]*ssa.Function
 	factsDone   map[string]bool
 	nameCount   map[string]int
@@ -88,7 +89,7 @@ func (e *Engine) NewRun(fn *ssa.Function, c *Contract) *FnRun {
 	sc := NewScript()
 	r := &FnRun{Eng: e, Sc: sc, TM: NewTypeMap(sc, ModulePath), Heap: NewHeap(sc), Fn: fn, Contract: c,
 		Trusted: map[string]bool{}, Notes: map[string]bool{}, Inlined: map[string]bool{}, addrTable: map[string]*Loc{},
-		closures: map[string]*closureInfo{}, funcRefs: map[string]*ssa.Function{}, factsDone: map[string]bool{}, nameCount: map[string]int{},
+		closures: map[string]*closureInfo{}, boxHolds: map[string][]Val{}, funcRefs: map[string]*ssa.Function{}, factsDone: map[string]bool{}, nameCount: map[string]int{},
 		globalsChecked: map[string]bool{}, snaps: map[string]*State{}, snapReached: map[string]Term{}, constCells: map[string]Term{}, trackTypes: map[string]types.Type{}, UsedContracts: map[string]bool{}, SpecFuns: map[string]bool{}, lockTouched: map[string]bool{}}
 	r.Heap.noQuantBase = c != nil && !contractNeedsQuantifiedHeapFacts(e, c) && os.Getenv("GOV_QUANTBASE") == ""
 	return r
